@@ -9,7 +9,7 @@ from . import c17
 
 ID = 'C18'
 LEVEL = 'exploration'
-RULE = ('(a) vsched harness (see C17): 2-6 threads on one shared memory (min 1, max 6 pages), generated lists of memory.grow(delta '
+RULE = ('(a) vsched harness (see C17): 2-6 threads on one shared memory (min 1, max 6 pages; defined by the module or imported from the embedder), generated lists of memory.grow(delta '
         'in {0,1,2,3,5, 2^32-1}), memory.size, atomic loads/stores; the scheduler yields at every mutex operation, so a thread can be '
         'preempted between looking at the size and taking the lock; several generated decision strings per program. Oracle: '
         'successful grows ordered by their acquisition of the memory mutex must each return the page count produced by their '
@@ -39,7 +39,8 @@ def gen_case(ch, params):
                 ops.append([7, ch.pick((0, 64, 4096)), 0, 0])
         threads[str(t)] = ops
     nd = ch.pick((0, 8, 40, 120))
-    return {'threads': threads, 'addrs': [], 'decisions': bytes(ch.below(256) for _ in range(nd)).hex(), 'spurious': 0}
+    return {'threads': threads, 'addrs': [], 'decisions': bytes(ch.below(256) for _ in range(nd)).hex(), 'spurious': 0,
+            'imported': ch.below(3) == 0}
 
 
 def evaluate(case):
@@ -60,6 +61,18 @@ TSAN_DRIVER = r'''
 #include <pthread.h>
 #include "m.h"
 void trap(Trap t) { fprintf(stderr, "trap %d\n", (int)t); abort(); }
+#ifdef VF_IMPORTED_MEMORY
+#include <string.h>
+static wasmMemory* vf_shared;
+static void* vf_resolve(const char* module, const char* name) {
+    (void)module;
+    if (strcmp(name, "memory") == 0) { if (!vf_shared) vf_shared = wasmMemoryAllocate(1, VF_IMPORTED_MEMORY, true); return vf_shared; }
+    return NULL;
+}
+#define VF_RESOLVER vf_resolve
+#else
+#define VF_RESOLVER NULL
+#endif
 static mInstance root;
 static int N;
 static pthread_barrier_t bar;
@@ -67,7 +80,7 @@ static void* grower(void* p) { mInstance* i = (mInstance*)p; int k; pthread_barr
 static void* user(void* p) { mInstance* i = (mInstance*)p; int k; U32 acc = 0; pthread_barrier_wait(&bar); for (k = 0; k < N; k++) { m_store32(i, 64, (U32)k); acc += m_load32(i, 64); acc += m_size(i); } return (void*)(size_t)acc; }
 int main(int argc, char** argv) {
     pthread_t th[8]; int t, T = atoi(argv[1]); N = atoi(argv[2]); (void)argc;
-    mInstantiate(&root, NULL);
+    mInstantiate(&root, VF_RESOLVER);
     pthread_barrier_init(&bar, NULL, (unsigned)T);
     for (t = 0; t < T; t++) pthread_create(&th[t], NULL, t % 2 ? user : grower, root.common.newChild((wasmModuleInstance*)&root));
     for (t = 0; t < T; t++) pthread_join(th[t], NULL);
@@ -78,26 +91,26 @@ int main(int argc, char** argv) {
 _tsan = {}
 
 
-def tsan_binary():
-    if 'b' in _tsan and os.path.exists(_tsan['b']):
-        return _tsan['b']
+def tsan_binary(imported=False):
+    if imported in _tsan and os.path.exists(_tsan[imported]):
+        return _tsan[imported]
     d = cexec.new_dir('tg')
-    tr = cexec.translate(wasm.encode(sched.harness_module()), d, 'm', (), 'plain')
+    tr = cexec.translate(wasm.encode(sched.harness_module(imported)), d, 'm', (), 'plain')
     if tr.rc != 0:
         raise cexec.InfraError('translate failed')
     open(os.path.join(d, 'drv.c'), 'w').write(TSAN_DRIVER)
-    cmd = ['clang', '-O1', '-g', '-w', '-fsanitize=thread', '-DWASM_THREADS_PTHREADS', '-I', os.path.join(cexec.REPO, 'w2c2'),
+    cmd = ['clang', '-O1', '-g', '-w', '-fsanitize=thread'] + (['-DVF_IMPORTED_MEMORY=%d' % sched.MAXPAGES] if imported else []) + ['-DWASM_THREADS_PTHREADS', '-I', os.path.join(cexec.REPO, 'w2c2'),
            '-I', os.path.join(cexec.REPO, 'futex'), 'drv.c', 'm.c'] + [os.path.join(cexec.REPO, 'futex', f) for f in cexec.FUTEX_SRCS] + \
         ['-o', 'tg', '-lpthread', '-lm']
     r = cexec.run(cmd, cwd=d)
     if r.returncode != 0:
         raise cexec.InfraError('building the TSan grow harness failed: %s' % r.stderr.decode(errors='replace')[-1200:])
-    _tsan['b'] = os.path.join(d, 'tg')
-    return _tsan['b']
+    _tsan[imported] = os.path.join(d, 'tg')
+    return _tsan[imported]
 
 
 def run_tsan(case):
-    exe = tsan_binary()
+    exe = tsan_binary(bool(case.get('imported')))
     env = dict(os.environ)
     env['TSAN_OPTIONS'] = 'exitcode=96:report_thread_leaks=0'
     try:
@@ -117,7 +130,7 @@ def task(wid, seed, params):
     if params.get('tsan'):
         for ci in range(params['ncases']):
             ch = Chooser(seed * 1000003 + ci)
-            case = {'kind': 'tsan', 'T': ch.pick((2, 4, 6, 8)), 'N': ch.pick((200, 2000, 20000))}
+            case = {'kind': 'tsan', 'T': ch.pick((2, 4, 6, 8)), 'N': ch.pick((200, 2000, 20000)), 'imported': bool(ci % 2)}
             try:
                 bad = run_tsan(case)
             except cexec.InfraError as e:
@@ -125,6 +138,7 @@ def task(wid, seed, params):
                 break
             res['evaluations'] += 1
             res['classes']['tsan_run'] += 1
+            res['classes']['tsan_imported_memory' if case['imported'] else 'tsan_defined_memory'] += 1
             res['nontrivial'].add(f1.hx(repr(case)))
             if bad and not res['violations']:
                 res['violations'].append({'signature': 'c18:' + bad[0], 'summary': bad[1][:900], 'replay': {'kind': 'tsan', 'case': case, 'message': bad[1][:2500]}})
@@ -146,6 +160,7 @@ def task(wid, seed, params):
             res['evaluations'] += 1
             for c in classes:
                 res['classes'][c] += 1
+            res['classes']['imported_shared_memory' if case.get('imported') else 'defined_shared_memory'] += 1
             if classes & {'several_successful_grows', 'preempted_between_read_and_lock', 'failing_grow'}:
                 res['nontrivial'].add(f1.hx(repr(case)))
             if ci < 1 and si < 2:
